@@ -4,6 +4,7 @@
      PmMutator.mutate (+ pm_mutation)                              = pm_mutate         on the tape pm_tape
      UniformMutator.mutate (+ uniform_mutation)                    = uniform_mutate    on the tape uniform_tape
      NonUniformMutation.mutate (+ non_uniform_mutation, __delta)   = nonuniform_mutate on the tape nonuniform_tape
+     SimulatedBinaryCrossover.cross (the whole method)             = sbx_cross         on the tape cross_tape
    Compiled per run against the freshly generated ArtapGen.VariationGen; not part of the normal build.
 
    Random source: the generated functions read the oracle tapes `unif a b k` (= the k-th draw, made by
@@ -265,6 +266,140 @@ Section NonUniform.
 End NonUniform.
 
 (* ---------------------------------------------------------------------------------------------- *)
+(* SimulatedBinaryCrossover.cross, the whole method: the copies x1 = list(p1), x2 = list(p2), the probability
+   draw, the loop over the parameters with its threshold draw, the abs(x2[i] - x1[i]) > EPSILON test, the
+   spread-factor arithmetic, the two clips and the swap draw with the item assignments.
+   The model's tests are `ltb half r` (= not r <= 0.5) and `ltb prob r`; the source writes `r <= 0.5` and
+   `r <= self.probability`.  The two agree when every draw is comparable with the two thresholds (no NaN):
+   hypotheses draws_vs_half / draws_vs_prob, stated on the oracle tape.  The model gives IndexError (None) for a
+   parent shorter than the parameter list; the source only reads x1[i], x2[i] when coordinate i is crossed, so
+   the statement is for parents at least as long as the parameter list (the box theorems have them equal). *)
+Section Sbx.
+  Context {T : Type} (ltb leb : T -> T -> bool) (add sub mul div : T -> T -> T) (neg absT : T -> T) (c05 c1 c2 : T).
+  Variable rnd : nat -> T.                      (* random.random() when k draws were made before *)
+  Variable pw : T -> T -> T.                    (* pow *)
+  Variables (prob dist eps : T).                (* self.probability, self.distribution_index, EPSILON *)
+
+  Definition sbx_far (a b : T) : bool := ltb eps (absT (sub b a)).     (* abs(x2[i] - x1[i]) > EPSILON *)
+
+  Definition sbx_alpha (beta : T) : T := sub c2 (pw beta (neg (add dist c1))).
+  Definition sbx_betaq (alpha rand : T) : T :=
+    if leb rand (div c1 alpha) then pw (mul rand alpha) (div c1 (add dist c1))
+    else pw (div c1 (sub c2 (mul rand alpha))) (div c1 (add dist c1)).
+  (* y1, y2 = the two coordinates in increasing order *)
+  Definition sbx_lo (a b : T) : T := if ltb a b then a else b.
+  Definition sbx_hi (a b : T) : T := if ltb a b then b else a.
+  (* the values passed to clip; k = the counter of the draw `rand` *)
+  Definition sbx_pre1 (y1 y2 lb ub : T) (k : nat) : T :=
+    mul c05 (sub (add y1 y2) (mul (sbx_betaq (sbx_alpha (add c1 (div (mul c2 (sub y1 lb)) (sub y2 y1)))) (rnd k)) (sub y2 y1))).
+  Definition sbx_pre2 (y1 y2 lb ub : T) (k : nat) : T :=
+    mul c05 (add (add y1 y2) (mul (sbx_betaq (sbx_alpha (add c1 (div (mul c2 (sub ub y2)) (sub y2 y1)))) (rnd k)) (sub y2 y1))).
+
+  (* the entries the model consumes in the loop, from counter k on *)
+  Fixpoint sbx_tape (params : list (T * T)) (x1 x2 : list T) (k : nat) : list (entry (T := T)) :=
+    match params, x1, x2 with
+    | (lb, ub) :: ps, a :: x1', b :: x2' =>
+        if ltb c05 (rnd k) then Draw (rnd k) :: sbx_tape ps x1' x2' (S k)
+        else if sbx_far a b then
+          Draw (rnd k) :: Draw (rnd (S k)) ::
+          Pre (sbx_pre1 (sbx_lo a b) (sbx_hi a b) lb ub (S k)) :: Pre (sbx_pre2 (sbx_lo a b) (sbx_hi a b) lb ub (S k)) ::
+          Draw (rnd (S (S k))) :: sbx_tape ps x1' x2' (S (S (S k)))
+        else Draw (rnd k) :: sbx_tape ps x1' x2' (S k)
+    | _, _, _ => []
+    end.
+
+  Definition cross_tape (params : list (T * T)) (p1 p2 : list T) (k : nat) : list (entry (T := T)) :=
+    Draw (rnd k) :: (if ltb prob (rnd k) then [] else sbx_tape params p1 p2 (S k)).
+
+  (* the pair of children as the list [x1; x2] (`return x1, x2`) *)
+  Definition pair_list (r : option (list T * list T)) : option (list (list T)) :=
+    match r with Some (a, b) => Some [a; b] | None => None end.
+
+  Definition glue2 (pre1 pre2 : list T) (r : option (list T * list T)) : option (list T * list T) :=
+    match r with Some (xs, ys) => Some (pre1 ++ xs, pre2 ++ ys) | None => None end.
+
+  Lemma glue2_step : forall pre1 pre2 x y r,
+    glue2 (pre1 ++ [x]) (pre2 ++ [y]) r = glue2 pre1 pre2 (ocons2 x y r).
+  Proof. intros pre1 pre2 x y [[xs ys]|]; cbn; [|reflexivity]. now rewrite <- !app_assoc. Qed.
+
+  Lemma py_set_nth_mid : forall (pre : list T) x y r i, i = length pre ->
+    py_set_nth i y (pre ++ x :: r) = Some (pre ++ y :: r).
+  Proof. intros pre x y r i ->. induction pre as [|a pre IH]; cbn; [reflexivity|]. now rewrite IH. Qed.
+
+  Lemma sbx_loop_step : forall lb ub ps a s1 b s2 k,
+    sbx_loop ltb sbx_far c05 ((lb, ub) :: ps) (a :: s1) (b :: s2) (sbx_tape ((lb, ub) :: ps) (a :: s1) (b :: s2) k) =
+    if ltb c05 (rnd k) then ocons2 a b (sbx_loop ltb sbx_far c05 ps s1 s2 (sbx_tape ps s1 s2 (S k)))
+    else if sbx_far a b then
+      let v1 := clip ltb (sbx_pre1 (sbx_lo a b) (sbx_hi a b) lb ub (S k)) lb ub in
+      let v2 := clip ltb (sbx_pre2 (sbx_lo a b) (sbx_hi a b) lb ub (S k)) lb ub in
+      if ltb c05 (rnd (S (S k)))
+      then ocons2 v1 v2 (sbx_loop ltb sbx_far c05 ps s1 s2 (sbx_tape ps s1 s2 (S (S (S k)))))
+      else ocons2 v2 v1 (sbx_loop ltb sbx_far c05 ps s1 s2 (sbx_tape ps s1 s2 (S (S (S k)))))
+    else ocons2 a b (sbx_loop ltb sbx_far c05 ps s1 s2 (sbx_tape ps s1 s2 (S k))).
+  Proof.
+    intros. cbn [sbx_tape]. destruct (ltb c05 (rnd k)) eqn:E1; [cbn [sbx_loop]; rewrite E1; reflexivity|].
+    destruct (sbx_far a b) eqn:E2; cbn [sbx_loop]; rewrite E1, E2; reflexivity.
+  Qed.
+
+  Hypothesis draws_vs_half : forall k, leb (rnd k) c05 = negb (ltb c05 (rnd k)).
+  Hypothesis draws_vs_prob : forall k, leb (rnd k) prob = negb (ltb prob (rnd k)).
+
+  Let body := sbx_cross_l1_body ltb leb add sub mul div neg absT c05 c1 c2 (@bnd T) rnd pw.
+  Local Arguments sbx_cross_l1_after : simpl never.
+
+  Lemma sbx_loop_eq : forall ps s1 s2 pre1 pre2 k,
+    length pre1 = length pre2 -> length ps <= length s1 -> length ps <= length s2 ->
+    sbx_cross_l1_run ltb leb add sub mul div neg absT c05 c1 c2 (@bnd T) rnd pw eps dist ps (length pre1) k
+                     (pre2 ++ s2) (pre1 ++ s1) =
+    pair_list (glue2 pre1 pre2 (sbx_loop ltb sbx_far c05 ps s1 s2 (sbx_tape ps s1 s2 k))).
+  Proof.
+    unfold sbx_cross_l1_run.
+    intros ps; induction ps as [|[lb ub] ps IH]; intros s1 s2 pre1 pre2 k Hpre H1 H2.
+    { cbn [fold_left]. unfold sbx_cross_l1_after. destruct s1, s2; reflexivity. }
+    destruct s1 as [|a s1]; [cbn in H1; lia|]. destruct s2 as [|b s2]; [cbn in H2; lia|].
+    cbn [length] in H1, H2.
+    assert (Hn : forall (x y : T), pre1 ++ x :: s1 = (pre1 ++ [x]) ++ s1 /\ pre2 ++ y :: s2 = (pre2 ++ [y]) ++ s2
+                                 /\ S (length pre1) = length (pre1 ++ [x])
+                                 /\ length (pre1 ++ [x]) = length (pre2 ++ [y])).
+    { intros. rewrite <- !app_assoc, !app_length. cbn. repeat split; lia. }
+    rewrite sbx_loop_step. cbn [fold_left]. loop_step.
+    rewrite draws_vs_half. destruct (ltb c05 (rnd k)); cbn [negb].
+    - (* coordinate not crossed *)
+      rewrite <- glue2_step. destruct (Hn a b) as (-> & -> & -> & Hl). rewrite Nat.add_1_r.
+      apply IH; [exact Hl| lia | lia].
+    - rewrite (nth_error_mid pre2 b s2) by exact Hpre. rewrite (nth_error_mid pre1 a s1) by reflexivity.
+      change (ltb eps (absT (sub b a))) with (sbx_far a b). destruct (sbx_far a b).
+      + (* crossed *)
+        unfold sbx_lo, sbx_hi.
+        destruct (ltb a b); unfold sbx_cross_k2, bnd; cbn [fst snd nth_error]; cbv zeta;
+          rewrite !clip_gen_eq_model, !Nat.add_1_r, draws_vs_half;
+          (destruct (ltb c05 (rnd (S (S k)))); cbn [negb];
+           rewrite (py_set_nth_mid pre1 a _ s1) by reflexivity;
+           rewrite (py_set_nth_mid pre2 b _ s2) by exact Hpre;
+           rewrite <- glue2_step;
+           match goal with
+           | |- context [fold_left _ _ (_ _ _ (pre2 ++ ?y :: s2) (pre1 ++ ?x :: s1) None)] =>
+               destruct (Hn x y) as (-> & -> & -> & Hl)
+           end;
+           (etransitivity; [apply IH; [exact Hl | lia | lia] | reflexivity])).
+      + rewrite <- glue2_step. destruct (Hn a b) as (-> & -> & -> & Hl). rewrite Nat.add_1_r.
+        apply IH; [exact Hl| lia | lia].
+  Qed.
+
+  Theorem sbx_cross_gen_eq_model : forall (params : list (T * T)) (p1 p2 : list T) (k : nat),
+    length params <= length p1 -> length params <= length p2 ->
+    sbx_cross_gen ltb leb add sub mul div neg absT c05 c1 c2 (@bnd T) rnd pw p1 p2 eps k params prob dist =
+    pair_list (sbx_cross ltb sbx_far c05 prob params p1 p2 (cross_tape params p1 p2 k)).
+  Proof.
+    intros params p1 p2 k H1 H2. unfold sbx_cross_gen, sbx_cross, cross_tape. cbv zeta.
+    rewrite draws_vs_prob. destruct (ltb prob (rnd k)); cbn [negb]; [reflexivity|].
+    rewrite Nat.add_1_r.
+    etransitivity; [exact (sbx_loop_eq params p1 p2 [] [] (S k) eq_refl H1 H2)|].
+    destruct (sbx_loop _ _ _ params p1 p2 _) as [[a b]|]; reflexivity.
+  Qed.
+End Sbx.
+
+(* ---------------------------------------------------------------------------------------------- *)
 (* The binary64 instances (they pin operators and literals: the Sections above abstract them positionally):
    the generated instance at PrimFloat equals the model at PrimFloat.ltb, the order of the C08 float theorems,
    on the tape built with IEEE-754 + - * / and the literals 0, 0.5, 1, 2. *)
@@ -291,6 +426,46 @@ Theorem nonuniform_mutate_gen_float : forall unif rnd pw prob pert maxit iterati
                      0%float 0x1p-1%float 1%float unif rnd pw prob pert maxit iteration params parent k).
 Proof.
   intros. exact (nonuniform_mutate_gen_eq_model PrimFloat.ltb PrimFloat.leb _ _ _ _ _ _ unif rnd pw prob pert maxit iteration params parent k).
+Qed.
+
+(* ---- SBX at binary64: <= and < on floats are related as the model needs when no NaN is drawn ---- *)
+From Artap Require Import Base.FloatInst.
+
+Lemma SFcompare_antisym f1 f2 : f1 <> S754_nan -> f2 <> S754_nan ->
+  SFcompare f2 f1 = option_map CompOpp (SFcompare f1 f2).
+Proof.
+  intros H1 H2.
+  destruct f1 as [s1|s1| |s1 m1 e1], f2 as [s2|s2| |s2 m2 e2]; try congruence; cbn;
+    try (destruct s1); try (destruct s2); cbn; try reflexivity;
+    rewrite (Z.compare_antisym e1 e2); destruct (e1 ?= e2)%Z eqn:E; cbn; try reflexivity;
+    rewrite (Pos.compare_cont_antisym m1 m2 Eq); cbn; try reflexivity;
+    destruct (Pos.compare_cont Eq m1 m2); reflexivity.
+Qed.
+
+Lemma float_leb_negb_ltb x y : PrimFloat.is_nan x = false -> PrimFloat.is_nan y = false ->
+  PrimFloat.leb x y = negb (PrimFloat.ltb y x).
+Proof.
+  intros Hx Hy. rewrite leb_spec, ltb_spec. unfold SFleb, SFltb.
+  assert (Nx : Prim2SF x <> S754_nan) by (intro E; apply is_nan_spec in E; congruence).
+  assert (Ny : Prim2SF y <> S754_nan) by (intro E; apply is_nan_spec in E; congruence).
+  rewrite (SFcompare_antisym (Prim2SF x) (Prim2SF y) Nx Ny).
+  destruct (SFcompare (Prim2SF x) (Prim2SF y)) as [[]|] eqn:E; cbn; try reflexivity.
+  exfalso. destruct (Prim2SF x) as [| | |[] ? ?], (Prim2SF y) as [| | |[] ? ?]; cbn in E; try congruence;
+    repeat match goal with b : bool |- _ => destruct b end; cbn in E; congruence.
+Qed.
+
+(* every draw and the crossover probability are numbers (random.random() returns values in [0, 1)) *)
+Theorem sbx_cross_gen_float : forall rnd pw prob dist eps (params : list (float * float)) p1 p2 k,
+  (forall j, PrimFloat.is_nan (rnd j) = false) -> PrimFloat.is_nan prob = false ->
+  length params <= length p1 -> length params <= length p2 ->
+  sbx_cross_gen_f (@bnd float) rnd pw p1 p2 eps k params prob dist =
+  pair_list (sbx_cross PrimFloat.ltb (sbx_far PrimFloat.ltb PrimFloat.sub PrimFloat.abs eps) 0x1p-1%float prob params p1 p2
+               (cross_tape PrimFloat.ltb PrimFloat.leb PrimFloat.add PrimFloat.sub PrimFloat.mul PrimFloat.div
+                           PrimFloat.opp PrimFloat.abs 0x1p-1%float 1%float 2%float rnd pw prob dist eps params p1 p2 k)).
+Proof.
+  intros rnd pw prob dist eps params p1 p2 k Hr Hp H1 H2.
+  apply (sbx_cross_gen_eq_model PrimFloat.ltb PrimFloat.leb); try assumption;
+    intro j; apply float_leb_negb_ltb; auto.
 Qed.
 
 (* Print Assumptions of the theorems above is run by harness/core.py translated_obligations (qualified names, whitelist) *)
